@@ -204,7 +204,49 @@ def _is_basic(idx):
     return all(x is None or x is Ellipsis or isinstance(x, (int, np.integer, slice)) for x in xs)
 
 
+def _sym_index_array(a, idx):
+    """`idx` is a 1-D integer index array with symbolic entries into the 1-D array `a` (an SArr of concrete length counts)"""
+    from .values import SArr
+
+    if isinstance(idx, SArr) and isinstance(idx.n, int) and not isinstance(idx.n, bool) and idx.kind == "int" and not hasattr(idx, "__pyvc_getitem__"):
+        idx = NArr((idx.n,), [idx.get(j) for j in range(idx.n)], "int")
+    if isinstance(idx, NArr) and a.ndim == 1 and idx.ndim == 1 and idx.kind == "int" and any(isinstance(x, Sym) for x in idx.items):
+        return idx
+    return None
+
+
+def _sym_positions(eng, idx, n, what):
+    """z3 positions of a symbolic index array, normalised as numpy does (negative entries count from the end); one bounds decision for
+    the whole array"""
+    zs = [to_z3(x, "int") for x in idx.items]
+    if eng.spec_mode:
+        return zs
+    ok = z3.And(*[z3.And(z >= 0, z < n) for z in zs])
+    if getattr(eng, "strict_index", False):
+        eng.prove(eng.site("index-in-bounds"), ok, "safety", what)
+        return zs
+    if eng.branch(eng.sbool(ok)):
+        return zs
+    if eng.branch(eng.sbool(z3.And(*[z3.And(z >= -n, z < n) for z in zs]))):
+        return [z3.If(z < 0, z + n, z) for z in zs]
+    raise ProgExc(IndexError, what)
+
+
 def getitem(eng, a, idx):
+    sidx = _sym_index_array(a, idx) if not isinstance(idx, (Sym, int, slice, tuple)) else None
+    if sidx is not None:
+        # a[index array] with symbolic entries on a 1-D array of concrete length: cell j of the result is a[idx[j]] (a case split per cell)
+        n = len(a.items)
+        if n == 0:
+            raise ProgExc(IndexError, "index array into an empty array")
+        used(eng, "fancy-index-gather-is-fresh")
+        out = []
+        for iz in _sym_positions(eng, sidx, n, "index array"):
+            z = to_z3(a.items[-1], a.kind)
+            for j in range(n - 2, -1, -1):
+                z = z3.If(iz == j, to_z3(a.items[j], a.kind), z)
+            out.append(Sym(z3.simplify(z), a.kind))
+        return NArr((len(out),), out, a.kind, a.dtype)
     if isinstance(idx, Sym) and a.ndim == 1:
         from .models import norm_index
 
@@ -239,6 +281,31 @@ def setitem(eng, a, idx, val):
     from .models import check_frame
 
     check_frame(eng, a.root())
+    sidx = _sym_index_array(a, idx) if not isinstance(idx, (Sym, int, slice, tuple)) else None
+    if sidx is not None and a.view_of is None:
+        # a[index array] = values with symbolic positions: cell idx[j] receives values[j].  Determined for pairwise distinct positions
+        # (cells nobody names keep their content); with a repeated position numpy documents no winner: the array is then arbitrary.
+        n, m = len(a.items), len(sidx.items)
+        v = _as_narr(eng, val)
+        if v.ndim == 0:
+            vals = [v.items[0]] * m
+        elif v.ndim == 1 and len(v.items) == m:
+            vals = list(v.items)
+        else:
+            raise ProgExc(ValueError, "shape mismatch: value array could not be broadcast to indexing result")
+        if a.kind == "int" and v.kind == "real":
+            raise Unsupported("store of reals into an int array")
+        used(eng, "index-array store a[idx] = values at symbolic positions: cell idx[j] receives values[j] (pairwise distinct positions; repeated positions: unspecified)")
+        pos = _sym_positions(eng, sidx, n, "index array store")
+        distinct = z3.Distinct(*pos) if m > 1 else z3.BoolVal(True)
+        cells = [to_z3(x, a.kind) for x in a.items]
+        for iz, x in zip(pos, vals):
+            vz = to_z3(cast(eng, x, a.kind), a.kind)
+            cells = [z3.If(iz == j, vz, c) for j, c in enumerate(cells)]
+        from .values import fresh
+
+        a.items = [Sym(z3.simplify(z3.If(distinct, c, fresh(a.kind, "repeated").z)), a.kind) for c in cells]
+        return
     if isinstance(idx, Sym) and a.ndim == 1 and kind_of(val) is not None:
         # a[i] = v at a symbolic position of a 1-D array: every item becomes ite(i == j, v, old) (bounds are an obligation)
         from .models import norm_index
